@@ -125,6 +125,8 @@ class Comparer(object):
         self.visited_pre = set()
         self.ignore = ()
         self.extra_attrs = set()
+        from . import run as _run
+        self.footprint = _run.footprint()
 
     def goal(self, name, g):
         for pre in self.ignore:
@@ -358,6 +360,9 @@ class Comparer(object):
         for k in sorted(set(fa) | set(fb)):
             if k.startswith('_ghost'):
                 continue
+            if k not in self.footprint and self.footprint:
+                self.extra_attrs.add('%s.%s' % (name, k))
+                continue
             if k not in fb:
                 # attribute the contract does not mention (extra state kept by the code): not compared;
                 # it matters only through later calls, which the sequence cases exercise
@@ -512,28 +517,76 @@ def run_path(prog, registry, contract, body_q, case_build, prefix, shared, modul
     return res
 
 
-def smt_check(assumptions, goal, timeout_ms=None):
-    """-> ('proved'|'refuted'|'unknown', model or None, seconds, backend)"""
-    t0 = time.time()
-    if goal is True or (is_sym(goal) and z3.is_true(goal)):
-        return 'proved', None, 0.0, 'trivial'
+QUICK_MS = 2000
+
+
+def _mul_count(t, limit=24):
+    """Number of distinct product / quotient nodes in a term (stops counting at `limit`)."""
+    if not is_sym(t):
+        return 0
+    seen = set()
+    todo = [t]
+    n = 0
+    while todo and n < limit:
+        x = todo.pop()
+        if x.get_id() in seen:
+            continue
+        seen.add(x.get_id())
+        if z3.is_app(x):
+            if x.decl().kind() in (z3.Z3_OP_MUL, z3.Z3_OP_DIV):
+                n += 1
+            todo.extend(x.children())
+    return n
+
+
+def _z3_once(assumptions, goal, ms):
     s = z3.Solver()
-    s.set('timeout', timeout_ms or SOLVER_TIMEOUT_MS)
+    s.set('timeout', ms)
     for a in assumptions:
         s.add(a)
-    if goal is False:
-        pass
-    else:
+    if goal is not False:
         s.add(z3.Not(to_bool(goal)))
-    r = s.check()
-    dt = time.time() - t0
+    return s, s.check()
+
+
+def smt_check(assumptions, goal, timeout_ms=None):
+    """-> ('proved'|'refuted'|'unknown', model or None, seconds, backend)
+    Order: z3 (short budget) -> sympy rational-function identity (pyvc/algebra.py) -> z3 (full budget) -> cvc5."""
+    t0 = time.time()
+    full = timeout_ms or SOLVER_TIMEOUT_MS
+    if goal is True or (is_sym(goal) and z3.is_true(goal)):
+        return 'proved', None, 0.0, 'trivial'
+    tried_algebra = False
+    if goal is not False and _mul_count(goal) >= 24:
+        # large polynomial identity: computer algebra first (z3's nlsat would only burn its budget)
+        tried_algebra = True
+        from .algebra import algebra_check
+        try:
+            if algebra_check(assumptions, to_bool(goal)) == 'proved':
+                return 'proved', None, time.time() - t0, 'sympy+z3'
+        except Exception:
+            pass
+    s, r = _z3_once(assumptions, goal, min(QUICK_MS, full))
     if r == z3.unsat:
-        return 'proved', None, dt, 'z3'
+        return 'proved', None, time.time() - t0, 'z3'
     if r == z3.sat:
-        return 'refuted', s.model(), dt, 'z3'
+        return 'refuted', s.model(), time.time() - t0, 'z3'
+    if goal is not False and not tried_algebra:
+        from .algebra import algebra_check
+        try:
+            if algebra_check(assumptions, to_bool(goal)) == 'proved':
+                return 'proved', None, time.time() - t0, 'sympy+z3'
+        except Exception:
+            pass
+    if full > QUICK_MS:
+        s, r = _z3_once(assumptions, goal, full)
+        if r == z3.unsat:
+            return 'proved', None, time.time() - t0, 'z3'
+        if r == z3.sat:
+            return 'refuted', s.model(), time.time() - t0, 'z3'
     # second opinion: cvc5 through SMT-LIB text
     from .backends import cvc5_check
-    r2 = cvc5_check(s, timeout_ms or SOLVER_TIMEOUT_MS)
+    r2 = cvc5_check(s, full)
     dt = time.time() - t0
     if r2 == 'unsat':
         return 'proved', None, dt, 'cvc5'
